@@ -17,7 +17,7 @@ BUDGET_S = {"quick": 150, "thorough": 2400}
 RULE = ("Random real git repositories (5-40 files, depth <=4; directories named a, b, b/b, names with spaces and dots, hidden "
         "files and directories, a .gitignore with dir/, *.gen.py and /rooted patterns) x 0-3 positional globs x 0-3 "
         "--ignore globs drawn from the four documented forms x {no diff, diff inside the globs, diff outside the globs, "
-        "diff naming an --ignore'd file} x cwd in {root, a subdirectory} x stdin in {real pty, BLOCKWATCH_TERMINAL_MODE, "
+        "diff naming an --ignore'd file, diff that also renames (git mv) one of its files} x cwd in {root, a subdirectory} x stdin in {real pty, BLOCKWATCH_TERMINAL_MODE, "
         "pipe}. Some files are symbolic links to regular files. Files in the expected scope carry one healthy block with one line-count violation; every other file is "
         "poisoned (unbalanced tags or invalid UTF-8). Observed: key set of `list` and of the diagnostics, exit status. "
         "Non-trivial = >=2 different exclusion mechanisms at work and >=1 poisoned file; distinct = hash of (tree, argv, mode).")
@@ -132,6 +132,23 @@ def one_case(ctx, r, desc):
             k = r.randint(1, min(4, len(cands))) if cands else 0
             diff_files = r.sample(cands, k) if k else []
         terminal = mode in ("pty", "env")
+        # one of the diff's files may also be renamed (git mv) in the same change: the diff then names it `--- a/<old>` / `+++ b/<new>`
+        # and the file in scope is the *new* path
+        ren = None
+        if diff_files and r.random() < 0.3:
+            rp = r.choice(diff_files)
+            rd = os.path.dirname(rp) if r.random() < 0.6 else r.choice(["", "src", "b", "a/b", "new dir"])
+            rq = (rd + "/" if rd else "") + "moved_%d.%s" % (r.randrange(100), rp.rsplit(".", 1)[-1])
+            if rq not in paths:
+                ren = (rp, rq)
+        fin = (lambda x: ren[1] if ren and x == ren[0] else x)
+        is_hidden = (lambda x: any(seg.startswith(".") for seg in x.split("/")))
+        paths_base = paths
+        paths = sorted(fin(x) for x in paths_base)
+        hidden_base, hidden = hidden, {x for x in paths if is_hidden(x)}
+        not_ignored = {fin(x) for x in not_ignored}
+        walkable_base, walkable = walkable, {x for x in paths if x in not_ignored and x not in hidden}
+        diff_base, diff_files = diff_files, [fin(x) for x in diff_files]
         # -- expected scope --------------------------------------------------------------
         if globs:
             by_glob = {p for p in walkable if match_any(globs, p)}
@@ -143,21 +160,21 @@ def one_case(ctx, r, desc):
         scope = {p for p in scope if not match_any(ignores, p)}
         files = {}
         names = {}
-        for i, p in enumerate(paths):
-            if p in scope:
-                names[p] = "k%d" % i
-                files[p] = healthy(p, names[p]).encode()
+        for i, p in enumerate(paths_base):
+            if fin(p) in scope:
+                names[fin(p)] = "k%d" % i
+                files[p] = healthy(p, names[fin(p)]).encode()
             else:
                 # a file that will appear in the diff stays valid UTF-8 (a diff with invalid UTF-8 is
                 # rejected as a whole, which is outside this property)
-                files[p] = poisoned(p, r, utf8_only=p in diff_files)
+                files[p] = poisoned(p, r, utf8_only=p in diff_base)
         run.write_files(root, files)
         # some files are symbolic links to regular files kept in a hidden directory (never walked): a link is a file
         # under the root like any other, in scope or not by its own path
         links = []
         if r.random() < 0.3:
-            for p in r.sample(sorted(walkable), min(len(walkable), r.randint(1, 2))):
-                if p in diff_files:
+            for p in r.sample(sorted(walkable_base), min(len(walkable_base), r.randint(1, 2))):
+                if p in diff_base:
                     continue      # git diffs a link's target text, not the content
                 store = ".lnk/%d.%s" % (len(links), p.rsplit(".", 1)[-1])
                 run.write_files(root, {store: files[p]})
@@ -168,10 +185,10 @@ def one_case(ctx, r, desc):
         run.git(root, "commit", "-q", "-m", "base")
         diff = b""
         if mode == "pipe-diff":
-            for p in diff_files:
+            for p in diff_base:
                 full = os.path.join(root, p)
                 data = open(full, "rb").read()
-                if p in scope:
+                if fin(p) in scope:
                     if r.random() < 0.4:
                         data = data.replace(b"\nmore\n", b"\n", 1)        # a deletion-only change (with -U0: hunks with nothing on the new side)
                     else:
@@ -180,10 +197,15 @@ def one_case(ctx, r, desc):
                     data = data + b"appended\n"
                 with open(full, "wb") as f:
                     f.write(data)
-            diff = run.git(root, "diff", "-U%d" % r.choice([0, 1, 3]))
+            if ren:
+                os.makedirs(os.path.dirname(os.path.join(root, ren[1])), exist_ok=True)
+                run.git(root, "mv", ren[0], ren[1])
+                diff = run.git(root, "diff", "HEAD", "-M", "-U%d" % r.choice([0, 1, 3]))
+            else:
+                diff = run.git(root, "diff", "-U%d" % r.choice([0, 1, 3]))
         # -- run ------------------------------------------------------------------------
         subdirs = sorted({os.path.dirname(p) for p in paths if os.path.dirname(p) and not os.path.dirname(p).startswith(".")
-                          and "/." not in os.path.dirname(p)})
+                          and "/." not in os.path.dirname(p) and not (ren and p == ren[1])})
         cwd_rel = r.choice([""] + subdirs[:6]) if r.random() < 0.5 else ""
         cwd = os.path.join(root, cwd_rel) if cwd_rel else root
         argv = list(globs)
@@ -223,8 +245,9 @@ def one_case(ctx, r, desc):
     special = sorted({seg for p in diff_files for seg in p.split("/")[:-1] if seg in ("a", "b", "dir with space", "dots.in.name")})
     sets = {"mode": [mode], "mechanisms": sorted(mechanisms), "cwd": ["root" if not cwd_rel else "subdir"],
             "symlinks": ["in-scope" if p in scope else "out-of-scope" for p in links],
+            "rename": ([] if not ren else ["same-dir" if os.path.dirname(ren[0]) == os.path.dirname(ren[1]) else "other-dir"]),
             "diff_dirs": special, "nglobs_nignores": ["%d/%d" % (len(globs), len(ignores))]}
-    wit = {"paths": paths, "gitignore": gitignore, "argv": argv, "mode": mode, "cwd": cwd_rel, "diff_files": diff_files, "symlinks": links,
+    wit = {"paths": paths, "gitignore": gitignore, "argv": argv, "mode": mode, "cwd": cwd_rel, "diff_files": diff_files, "symlinks": links, "renamed": ren,
            "expected_scope": want, "diff": diff.decode("utf-8", "replace")[:3000], "desc": desc}
 
     def bad(sig, summary):
